@@ -758,6 +758,42 @@ def check_c19_session_framing(an):
             break
 
 
+_SERVER_BUILT = ('parse_board', 'parse_cards', 'parse_hand', 'parse_team_names',
+                 'parse_leader_message')
+
+
+def check_c19_understood(an):
+    """In a session of conforming players with no injected abort, every line a bundled client
+    feeds to one of these parsers was built by the real table manager, and the confirmation it
+    checks in its handshake was built by the real PlayerThread: if the client's own code cannot
+    make sense of it, builder and parser disagree -- whichever of the two is at fault, and whether
+    or not the harness's tokenizer would have accepted the line."""
+    run = an.run
+    if run.scn.get('abort') or an.offending is not None:
+        return
+    for name, args, result, exc in parserec.PARSE_LOG:
+        if exc is not None and name in _SERVER_BUILT:
+            an.add('C19', 'built-not-understood',
+                   f'the client\'s {name} raised {exc} on {args[0]!r:.160}, a line the table '
+                   f'manager built', key=f'built-not-understood:{name}')
+            return
+    for pl in run.players:
+        if pl.kind != 'bundled' or pl.obs.exception is None:
+            continue
+        if run.scn.get('family') == 'S2' and getattr(pl, 'verdict', None) != 'seated':
+            continue
+        tb = pl.obs.exception_tb or ''
+        if '_connect' in tb and 'Unexpected message received' in pl.obs.exception:
+            v = an.seated.get(pl.seat)
+            if v is not None and v.first_reply is not None and v.first_reply[0] == 'SEATED' \
+                    and v.first_reply[1] == pl.seat and v.first_reply[2] == pl.team:
+                an.add('C19', 'built-not-understood',
+                       f'{pl.name} ("{pl.team}") rejected the table manager\'s correct seating '
+                       f'confirmation {v.s2c[0][1]!r}: {pl.obs.exception}',
+                       key='built-not-understood:seated')
+                return
+
+
 def check_c19a(an, cov=None):
     """Every (line, value) pair the real parsers produced in this run is compared with the
     harness tokenizer's reading of the same line."""
@@ -765,6 +801,11 @@ def check_c19a(an, cov=None):
         check_c19_session_framing(an)
     except Exception as e:
         an.add('C19', 'parser-compare', f'session framing comparison failed: '
+                                       f'{type(e).__name__}: {e}')
+    try:
+        check_c19_understood(an)
+    except Exception as e:
+        an.add('C19', 'parser-compare', f'understood-by-peer comparison failed: '
                                        f'{type(e).__name__}: {e}')
     for name, args, result, exc in parserec.PARSE_LOG:
         try:
